@@ -247,4 +247,246 @@ theorem sim_step (s : St) (e : Ev) (s' : St) (ms : LinSt (List Nat) SOp SRes) (h
     rename_i ha
     exact absurd ha (hR.nocrash t)
 
+/-! ## Conservation at the level of linearization points -/
+
+/-- values of the linearized Pushes of a decorated trace -/
+def pushedOf (d : List (LEv SOp SRes)) : List Nat :=
+  d.filterMap fun e => match e with
+    | .lin _ (.push v) _ => some v
+    | _ => none
+
+/-- results of the linearized Pops of a decorated trace -/
+def poppedOf (d : List (LEv SOp SRes)) : List Nat :=
+  d.filterMap fun e => match e with
+    | .lin _ .pop (.val v) => some v
+    | _ => none
+
+theorem linStep_cases (ms ms' : LinSt (List Nat) SOp SRes) (e : LEv SOp SRes)
+    (h : (linMon stackSpec).step ms e = some ms') :
+    (ms'.st = ms.st ∧ pushedOf [e] = [] ∧ poppedOf [e] = []) ∨
+    (∃ t v, e = .lin t (.push v) .ack ∧ ms'.st = v :: ms.st) ∨
+    (∃ t, e = .lin t .pop (.val 0) ∧ ms.st = [] ∧ ms'.st = []) ∨
+    (∃ t v, e = .lin t .pop (.val v) ∧ ms.st = v :: ms'.st) := by
+  cases e with
+  | inv t op =>
+    simp only [linMon] at h; split at h <;> simp at h; subst h
+    exact Or.inl ⟨rfl, rfl, rfl⟩
+  | ret t r =>
+    simp only [linMon] at h; split at h <;> try simp at h
+    obtain ⟨_, rfl⟩ := h
+    exact Or.inl ⟨rfl, rfl, rfl⟩
+  | lin t op r =>
+    simp only [linMon] at h; split at h <;> try simp at h
+    obtain ⟨⟨_, hr⟩, rfl⟩ := h
+    cases op with
+    | push v =>
+      simp [stackSpec] at hr; subst hr
+      exact Or.inr (Or.inl ⟨t, v, rfl, by simp [stackSpec]⟩)
+    | pop =>
+      cases hst : ms.st with
+      | nil =>
+        simp [stackSpec, hst] at hr; subst hr
+        exact Or.inr (Or.inr (Or.inl ⟨t, rfl, rfl, by simp [stackSpec]⟩))
+      | cons v l =>
+        simp [stackSpec, hst] at hr; subst hr
+        exact Or.inr (Or.inr (Or.inr ⟨t, v, rfl, by simp [stackSpec]⟩))
+
+theorem pushedOf_cons (e : LEv SOp SRes) (d : List (LEv SOp SRes)) :
+    pushedOf (e :: d) = pushedOf [e] ++ pushedOf d := by
+  simp only [pushedOf, List.filterMap_cons, List.filterMap_nil]; split <;> simp
+
+theorem poppedOf_cons (e : LEv SOp SRes) (d : List (LEv SOp SRes)) :
+    poppedOf (e :: d) = poppedOf [e] ++ poppedOf d := by
+  simp only [poppedOf, List.filterMap_cons, List.filterMap_nil]; split <;> simp
+
+/-- for any segment of an accepted decorated trace: pushed + stack before = popped + stack after
+(for every non-zero value) -/
+theorem stack_conservation (d : List (LEv SOp SRes)) (ms ms' : LinSt (List Nat) SOp SRes)
+    (h : (linMon stackSpec).run ms d = some ms') (v : Nat) (hv : 0 < v) :
+    (pushedOf d).count v + ms.st.count v = (poppedOf d).count v + ms'.st.count v := by
+  induction d generalizing ms with
+  | nil => simp [ObsMonitor.run] at h; subst h; simp [pushedOf, poppedOf]
+  | cons e d ih =>
+    simp only [ObsMonitor.run] at h
+    cases hs : (linMon stackSpec).step ms e with
+    | none => simp [hs] at h
+    | some m1 =>
+      simp [hs] at h
+      have := ih m1 h
+      rw [pushedOf_cons, poppedOf_cons, List.count_append, List.count_append]
+      rcases linStep_cases ms m1 e hs with ⟨h1, h2, h3⟩ | ⟨t, w, rfl, h1⟩ | ⟨t, rfl, h1, h2⟩ | ⟨t, w, rfl, h1⟩
+      · rw [h2, h3, ← h1]; simp; omega
+      · rw [h1] at this
+        simp only [pushedOf, poppedOf, List.filterMap_cons, List.filterMap_nil, List.count_cons, List.count_nil] at this ⊢
+        omega
+      · rw [h1]; rw [h2] at this
+        have h0 : ¬ (0 = v) := by omega
+        simp [pushedOf, poppedOf, h0] at this ⊢
+        omega
+      · rw [h1]
+        simp only [pushedOf, poppedOf, List.filterMap_cons, List.filterMap_nil, List.count_cons, List.count_nil] at this ⊢
+        omega
+
+theorem stack_subset_pushed (d : List (LEv SOp SRes)) (ms ms' : LinSt (List Nat) SOp SRes)
+    (h : (linMon stackSpec).run ms d = some ms') (v : Nat) (hv : v ∈ ms'.st) :
+    v ∈ ms.st ∨ v ∈ pushedOf d := by
+  induction d generalizing ms with
+  | nil => simp [ObsMonitor.run] at h; subst h; exact Or.inl hv
+  | cons e d ih =>
+    simp only [ObsMonitor.run] at h
+    cases hs : (linMon stackSpec).step ms e with
+    | none => simp [hs] at h
+    | some m1 =>
+      simp [hs] at h
+      rw [pushedOf_cons, List.mem_append]
+      rcases ih m1 h with h' | h'
+      · rcases linStep_cases ms m1 e hs with ⟨h1, _, _⟩ | ⟨t, w, rfl, h1⟩ | ⟨t, rfl, h1, h2⟩ | ⟨t, w, rfl, h1⟩
+        · rw [h1] at h'; exact Or.inl h'
+        · rw [h1] at h'; simp at h'
+          rcases h' with rfl | h'
+          · exact Or.inr (Or.inl (by simp [pushedOf]))
+          · exact Or.inl h'
+        · rw [h2] at h'; simp at h'
+        · rw [h1]; exact Or.inl (by simp [h'])
+      · exact Or.inr (Or.inr h')
+
+/-! ## Pointer order: `next` always points to an older node (no cycles), `abs` is exact -/
+
+structure Ord (s : St) : Prop where
+  nextlt : ∀ (n : Nat) (nd : Node) (m : Nat), s.heap[n]? = some nd → nd.next = some m → m < n
+  toplt : ∀ o : Nat, s.top = some o → o < s.heap.length
+  pushreg : ∀ (t v o : Nat), s.th[t]? = some (TS.pushCas v (some o)) → o < s.heap.length
+  popreg : ∀ (t o : Nat) (nx : Option Nat), s.th[t]? = some (TS.popCas o nx) →
+    ∃ nd : Node, s.heap[o]? = some nd ∧ nd.next = nx
+
+theorem ord_init : Ord ({} : St) :=
+  ⟨by intro n nd m h; simp at h, by intro o h; simp at h, by intro t v o h; simp at h,
+   by intro t o nx h; simp at h⟩
+
+/-- thread `t` moves to `b`; shared memory unchanged -/
+theorem ord_move (s : St) (t : Nat) (b : TS) (ho : Ord s)
+    (hb1 : ∀ v o, b = TS.pushCas v (some o) → o < s.heap.length)
+    (hb2 : ∀ o nx, b = TS.popCas o nx → ∃ nd : Node, s.heap[o]? = some nd ∧ nd.next = nx) :
+    Ord { s with th := s.th.set t b } := by
+  refine ⟨ho.nextlt, ho.toplt, ?_, ?_⟩
+  · intro u v o hu
+    rcases getElem?_set_cases _ _ _ _ _ hu with ⟨_, hx⟩ | ⟨_, hx⟩
+    · exact hb1 v o hx.symm
+    · exact ho.pushreg u v o hx
+  · intro u o nx hu
+    rcases getElem?_set_cases _ _ _ _ _ hu with ⟨_, hx⟩ | ⟨_, hx⟩
+    · exact hb2 o nx hx.symm
+    · exact ho.popreg u o nx hx
+
+theorem ord_append (s : St) (b : TS) (ho : Ord s)
+    (hb1 : ∀ v o, b ≠ TS.pushCas v o) (hb2 : ∀ o nx, b ≠ TS.popCas o nx) :
+    Ord { s with th := s.th ++ [b] } := by
+  refine ⟨ho.nextlt, ho.toplt, ?_, ?_⟩
+  · intro u v o hu
+    rcases getElem?_snoc_cases _ _ _ _ hu with ⟨_, hx⟩ | ⟨_, hx⟩
+    · exact ho.pushreg u v o hx
+    · exact absurd hx.symm (hb1 v _)
+  · intro u o nx hu
+    rcases getElem?_snoc_cases _ _ _ _ hu with ⟨_, hx⟩ | ⟨_, hx⟩
+    · exact ho.popreg u o nx hx
+    · exact absurd hx.symm (hb2 o nx)
+
+theorem step_ord (s : St) (e : Ev) (s' : St) (ho : Ord s) (hs : step s e = some s') : Ord s' := by
+  cases e with
+  | invPush t v =>
+    simp only [step] at hs; split at hs <;> simp at hs; subst hs
+    exact ord_append s _ ho (by intro v o h; cases h) (by intro o nx h; cases h)
+  | invPop t =>
+    simp only [step] at hs; split at hs <;> simp at hs; subst hs
+    exact ord_append s _ ho (by intro v o h; cases h) (by intro o nx h; cases h)
+  | load t =>
+    simp only [step] at hs
+    split at hs
+    · simp at hs; subst hs
+      exact ord_move s t _ ho (by intro v o h; simp only [TS.pushCas.injEq] at h; exact ho.toplt o h.2) (by intro o nx h; cases h)
+    · split at hs
+      · simp at hs; subst hs
+        exact ord_move s t _ ho (by intro v o h; cases h) (by intro o nx h; cases h)
+      · split at hs <;> simp at hs <;> subst hs
+        · rename_i nd hnd
+          exact ord_move s t _ ho (by intro v o h; cases h) (by intro o nx h; cases h; exact ⟨nd, hnd, rfl⟩)
+        · exact ord_move s t _ ho (by intro v o h; cases h) (by intro o nx h; cases h)
+    · simp at hs
+  | cas t =>
+    simp only [step] at hs
+    split at hs
+    · rename_i v old ha
+      split at hs <;> simp at hs <;> subst hs
+      · -- publish
+        refine ⟨?_, ?_, ?_, ?_⟩
+        · intro n nd m hn hm
+          rcases getElem?_snoc_cases _ _ _ _ hn with ⟨_, hx⟩ | ⟨hx, hy⟩
+          · exact ho.nextlt n nd m hx hm
+          · subst hy; simp only at hm; subst hx; subst hm
+            exact ho.pushreg t v m ha
+        · intro o h; simp at h; subst h; simp
+        · intro u w o hu
+          simp only [List.length_append, List.length_singleton]
+          rcases getElem?_set_cases _ _ _ _ _ hu with ⟨_, hx⟩ | ⟨_, hx⟩
+          · cases hx
+          · have := ho.pushreg u w o hx; omega
+        · intro u o nx hu
+          rcases getElem?_set_cases _ _ _ _ _ hu with ⟨_, hx⟩ | ⟨_, hx⟩
+          · cases hx
+          · obtain ⟨nd, h1, h2⟩ := ho.popreg u o nx hx
+            exact ⟨nd, getElem?_snoc_left _ _ _ _ h1, h2⟩
+      · exact ord_move s t _ ho (by intro v o h; cases h) (by intro o nx h; cases h)
+    · rename_i o nx ha
+      split at hs
+      · obtain ⟨nd, hnd, hnx⟩ := ho.popreg t o nx ha
+        simp [hnd] at hs; subst hs
+        have h1 := ord_move s t (.popDone nd.val) ho (by intro v o h; cases h) (by intro o nx h; cases h)
+        refine ⟨h1.nextlt, ?_, h1.pushreg, h1.popreg⟩
+        intro m hm
+        simp only at hm
+        have := ho.nextlt o nd m hnd (hnx.trans hm)
+        have := lt_of_getElem? hnd
+        simp only; omega
+      · simp at hs; subst hs
+        exact ord_move s t _ ho (by intro v o h; cases h) (by intro o nx h; cases h)
+    · simp at hs
+  | retPush t =>
+    simp only [step] at hs; split at hs <;> simp at hs; subst hs
+    exact ord_move s t _ ho (by intro v o h; cases h) (by intro o nx h; cases h)
+  | retPop t r =>
+    simp only [step] at hs; split at hs <;> simp at hs
+    obtain ⟨_, rfl⟩ := hs
+    exact ord_move s t _ ho (by intro v o h; cases h) (by intro o nx h; cases h)
+  | retPanic t =>
+    simp only [step] at hs; split at hs <;> simp at hs; subst hs
+    exact ord_move s t _ ho (by intro v o h; cases h) (by intro o nx h; cases h)
+
+theorem reachable_ord (es : List Ev) (s : St) (h : model.run model.init es = some s) : Ord s :=
+  model.run_invariant Ord (fun s e s' hi hs => step_ord s e s' hi hs) _ _ es ord_init h
+
+theorem walk_denotes (heap : List Node)
+    (hlt : ∀ (n : Nat) (nd : Node) (m : Nat), heap[n]? = some nd → nd.next = some m → m < n)
+    (fuel : Nat) (p : Option Nat) (hf : ∀ o, p = some o → o < fuel ∧ o < heap.length) :
+    Denotes heap p (walk heap fuel p) := by
+  induction fuel generalizing p with
+  | zero =>
+    cases p with
+    | none => simp [walk, Denotes]
+    | some o => have := (hf o rfl).1; omega
+  | succ f ih =>
+    cases p with
+    | none => simp [walk, Denotes]
+    | some n =>
+      have hn := (hf n rfl).2
+      have hget : heap[n]? = some heap[n] := List.getElem?_eq_getElem hn
+      simp only [walk, hget]
+      refine ⟨heap[n].next, hget, ih _ ?_⟩
+      intro m hm
+      have := hlt n heap[n] m hget hm
+      have := (hf n rfl).1
+      omega
+
+theorem abs_denotes_of_ord (s : St) (ho : Ord s) : Denotes s.heap s.top (abs s) :=
+  walk_denotes s.heap ho.nextlt _ _ (fun o h => ⟨by have := ho.toplt o h; omega, ho.toplt o h⟩)
+
 end UtilModel.Treiber
